@@ -158,7 +158,10 @@ def gen_chain(rng):
             ops.append({'op': 'setitem', 'k': rng.choice(KEYS), 'v': gen_value(rng), 't': tt})
         reqs.append({'src': gen_src(rng, i, malformed), 't': t, 'ops': ops, 'exc': rng.random() < 0.15})
         t = tt
-    return {'opts': opts, 'reqs': reqs}
+    case = {'opts': opts, 'reqs': reqs}
+    if rng.random() < 0.25:
+        case['router'] = True      # through a real Router (request.session, exception view, Set-Cookie header)
+    return case
 
 
 def gen_oversize(rng):
@@ -168,9 +171,7 @@ def gen_oversize(rng):
     opts = gen_opts(rng)
     opts.pop('defaults', None)
     opts.setdefault('hashalg', 'sha512')
-    limit = prop._F.get('cookie_limit', 4064)
-    if limit > 100000:
-        limit = 4064
+    limit = prop.SPEC_LIMIT
     ds = hashlib.new(opts['hashalg']).digest_size
     t = 1000000
     target = limit + rng.choice([-3, -2, -1, 0, 0, 1, 1, 2, 3, 4])
@@ -212,6 +213,17 @@ def valid(case):
                 return False
         if not case['reqs']:
             return False
+        if 'router' in case and case['router'] is not True:
+            return False
+        if o.get('salt', '') not in SALTS or o.get('cookie_name', 'session') not in ('session', 'sid', 'my.session'):
+            return False
+        if o.get('path', '/') not in ('/', '/app') or o.get('domain') not in (None, 'example.com'):
+            return False
+        if o.get('samesite', 'Lax') not in ('Lax', 'Strict', None) or o.get('max_age') not in (None, 3600, 10):
+            return False
+        for k in ('soe', 'secure', 'httponly', 'defaults'):
+            if k in o and not isinstance(o[k], bool):
+                return False
         from harness.c10.prop import OPCODE, op_wire
         for r in case['reqs']:
             s = r['src']
